@@ -350,3 +350,69 @@ func zzVarOr(v bool, name string, val interface{}) interface{} {
 	}
 	return val
 }
+
+// ZZ_C16_dupnames2: further ways in which a name could come to stand twice in a tree; each
+// must be refused, and the same fills with a fresh name must be accepted.
+func ZZ_C16_dupnames2() {
+	which := rt.Param("which")
+	fresh := rt.Param("fresh") == 1 // control: the colliding name replaced by an unused one
+	nm := func(s string) string {
+		if fresh {
+			return "n" + s
+		}
+		return s
+	}
+	var p bool
+	switch which {
+	case 0: // a value inserted into a nested list brings a name used in another branch of the outer list
+		t := NewListNode(NewUintNode(1, "y"), NewListNode("v"), NewASCIINode("k"))
+		p = rt.Try(func() { t.FillVariables(map[string]interface{}{"v": NewUintNode(1, nm("y"))}) })
+	case 1: // the same through a message
+		m := NewDataMessage("", 1, 1, 0, "H->E", NewListNode(NewUintNode(1, "y"), NewListNode(NewListNode("v"))))
+		p = rt.Try(func() { m.FillVariables(map[string]interface{}{"v": NewBooleanNode(nm("y"))}) })
+	case 2: // a name generated by an ellipsis expansion exists already (only ellipsis keys in the map)
+		t := NewListNode(NewListNode(NewUintNode(1, "a"), "..."), NewUintNode(1, nm("a[1]")))
+		p = rt.Try(func() { t.FillVariables(map[string]interface{}{"...": 1}) })
+	case 3: // ... and with a further key in the map
+		t := NewListNode(NewListNode(NewUintNode(1, "a"), "..."), NewUintNode(1, nm("a[0]")), "z")
+		p = rt.Try(func() { t.FillVariables(map[string]interface{}{"...": 2, "z": NewListNode()}) })
+	case 4: // an unfilled ASCII variable (size -1) next to one other named element
+		p = rt.Try(func() { NewListNode(NewASCIINodeVariable("a", 0, -1), NewUintNode(1, nm("a"))) })
+	case 5:
+		p = rt.Try(func() { NewListNode(NewASCIINodeVariable("a", 1, 2), NewASCIINodeVariable(nm("a"), 0, -1)) })
+	case 6:
+		p = rt.Try(func() {
+			NewListNode(NewASCIINodeVariable("id", 0, -1), NewListNode(NewListNode(NewBooleanNode(true), NewIntNode(2, 7, nm("id")))))
+		})
+	case 7, 8, 9, 10, 11, 12: // one fill renames two variables of one node to the same new name
+		var n ItemNode
+		switch which {
+		case 7:
+			n = NewBinaryNode("lo", 7, "hi")
+		case 8:
+			n = NewBooleanNode("lo", true, "hi")
+		case 9:
+			n = NewIntNode(2, "lo", 7, "hi")
+		case 10:
+			n = NewUintNode(4, "lo", 7, "hi")
+		case 11:
+			n = NewFloatNode(8, "lo", 7.5, "hi")
+		case 12:
+			n = NewListNode("lo", NewBinaryNode(1), "hi")
+		}
+		second := "part"
+		if fresh {
+			second = "other"
+		}
+		p = rt.Try(func() { n.FillVariables(map[string]interface{}{"lo": "part", "hi": second}) })
+	case 13: // a rename onto a name the node keeps
+		n := NewListNode(NewIntNode(1, "a", "b"), NewBinaryNode("c"))
+		target := "b"
+		if fresh {
+			target = "d"
+		}
+		p = rt.Try(func() { n.FillVariables(map[string]interface{}{"c": target}) })
+	}
+	rt.Assert(p == !fresh, "dupnames:refused-iff-the-name-exists")
+	rt.Reach("end")
+}
